@@ -3,7 +3,7 @@ CONSTANTS
   MaxWrites = 3
   MaxCrashes = 2
   ClassSel = "sched"
-  Defects = {"deleteBeforeFlush", "renorm", "keyCollision", "intM"}
+  Defects = {"deleteBeforeFlush", "renorm"}
   Emit = TRUE
 INVARIANTS TypeOK EmitInv
 CHECK_DEADLOCK FALSE
